@@ -3,15 +3,41 @@
 // alters single bytes of the file, and records everything observed.
 // Variable-length fields are recorded as {n: length, h: content token, b: bytes
 // (left out for big records)}; the driver never compares anything.
+//
+// Events (inputs; the driver adds "res"):
+//
+//	put    a needle built field by field -> Needle.Append
+//	req    an upload request (POST multipart or PUT raw body; file id with optional _delta and .ext in the
+//	       path; ts, ttl, cm in the query; Seaweed-* pair headers; Content-Type / Content-Encoding)
+//	       -> needle.CreateNeedleFromRequest -> Needle.Append
+//	get    read record i back; via = "data" (Needle.ReadData), "blob" (needle.ReadNeedleBlob + Needle.ReadBytes),
+//	       "hdrbody" (needle.ReadNeedleHeader + Needle.ReadNeedleBody, no checksum comparison)
+//	copy   record i copied raw to the end of the file: via = "needle" (needle.ReadNeedleBlob +
+//	       needle.WriteNeedleBlob with a given append timestamp) or "volume" (the file opened as a real
+//	       storage.Volume: Volume.ReadNeedleBlob + Volume.WriteNeedleBlob), then read back with ReadData
+//	alter  one byte of the file XOR mask
+//	scan   storage.ScanVolumeFileFrom (via "" / "from") or storage.ScanVolumeFile (via "file": the volume
+//	       loaded by name without its index; only for files that start with a super block)
 package main
 
 import (
+	"bytes"
+	"compress/gzip"
 	"encoding/binary"
+	"encoding/json"
 	"fmt"
 	"hash/fnv"
 	"math/rand"
+	"mime/multipart"
+	"net/http"
+	"net/http/httptest"
+	"net/textproto"
+	"net/url"
 	"os"
 	"path/filepath"
+	"sort"
+	"strconv"
+	"strings"
 
 	"github.com/chrislusf/seaweedfs/weed/storage"
 	"github.com/chrislusf/seaweedfs/weed/storage/backend"
@@ -61,11 +87,15 @@ func token(b []byte) string {
 	return fmt.Sprintf("%d:%016x", len(b), h.Sum64())
 }
 
-// field materialises an input field: explicit bytes {"b":[...]} or generated {"n":len,"seed":s}
+// field materialises an input field: explicit bytes {"b":[...]}, generated {"n":len,"seed":s}, or
+// {"n":len,"fill":c} (n times the byte c)
 func field(v interface{}) []byte {
 	m, _ := v.(map[string]interface{})
 	if m == nil {
 		return nil
+	}
+	if c, ok := m["fill"]; ok {
+		return bytes.Repeat([]byte{byte(c.(float64))}, tr.I(m, "n"))
 	}
 	if s, ok := m["seed"]; ok && int64(s.(float64)) >= 0 {
 		n := tr.I(m, "n")
@@ -74,6 +104,16 @@ func field(v interface{}) []byte {
 		return b
 	}
 	return toBytes(m["b"])
+}
+
+// alnum is like field for text that must travel in a header: letters and digits only
+func alnum(v interface{}) []byte {
+	b := field(v)
+	const abc = "abcdefghijklmnopqrstuvwxyzABCDEFGHIJKLMNOPQRSTUVWXYZ0123456789"
+	for i := range b {
+		b[i] = abc[int(b[i])%len(abc)]
+	}
+	return b
 }
 
 func seedOf(v interface{}) int {
@@ -108,12 +148,13 @@ func needleEv(n *needle.Needle, off int64) tr.Ev {
 	binary.BigEndian.PutUint32(ck, uint32(n.Cookie))
 	return tr.Ev{"off": int(off), "cookie": byteList(ck), "id": be8(uint64(n.Id)), "size": int(n.Size), "flags": int(n.Flags),
 		"data": outField(n.Data), "name": outField(n.Name), "mime": outField(n.Mime), "lm": be8(n.LastModified),
-		"ttl": ttlList(n.Ttl), "pairs": outField(n.Pairs), "ts": be8(n.AppendAtNs)}
+		"ttl": ttlList(n.Ttl), "pairs": outField(n.Pairs), "ts": be8(n.AppendAtNs), "etag": n.Etag()}
 }
 
 type rec struct {
 	off  int64
 	size types.Size
+	id   types.NeedleId
 }
 
 type scanner struct {
@@ -145,10 +186,149 @@ func (s *scanner) VisitNeedle(n *needle.Needle, offset int64, hdr, body []byte) 
 var tripped int
 
 type file struct {
+	dir  string
+	vid  int
 	df   *backend.DiskFile
 	ver  needle.Version
 	recs []rec
 	strt int64
+	sb   bool // the file starts with a real super block (start = 8): it can be opened as a storage.Volume
+}
+
+// crcPieces feeds the data to a CRCwriter in three pieces and returns its sum (big-endian bytes)
+func crcPieces(data []byte) []int {
+	var sink bytes.Buffer
+	cw := needle.NewCRCwriter(&sink)
+	a, b := len(data)/3, 2*len(data)/3
+	cw.Write(data[:a])
+	cw.Write(data[a:b])
+	cw.Write(data[b:])
+	out := make([]byte, 4)
+	binary.BigEndian.PutUint32(out, cw.Sum())
+	return byteList(out)
+}
+
+// appendRec appends the needle and records what Append returned and what the file holds afterwards.
+// flds are the input fields as bytes, recorded into e (name of the field -> bytes).
+func (f *file) appendRec(n *needle.Needle, e tr.Ev, flds map[string][]byte, seeds map[string]int) tr.Ev {
+	crcw := crcPieces(n.Data)
+	etag := n.Etag()
+	off, size, actual, err := n.Append(f.df, f.ver)
+	end, _, _ := f.df.GetStat()
+	full := end-int64(off) <= fullLimit
+	for _, k := range []string{"data", "name", "mime", "pairs"} {
+		e[k] = fieldEv(flds[k], seeds[k], full)
+	}
+	e["full"] = full
+	raw := make([]byte, end-int64(off))
+	if _, rerr := f.df.ReadAt(raw, int64(off)); rerr != nil && err == nil {
+		tr.Fatal("read back: %v", rerr)
+	}
+	res := tr.Ev{"err": err != nil, "off": int(off), "size": int(size), "nsize": int(n.Size), "actual": int(actual),
+		"end": int(end), "rawlen": len(raw), "hdr": []int{}, "raw": []int{}, "etag": etag, "crcw": crcw, "cks": []int{}}
+	if len(raw) >= 16 {
+		res["hdr"] = byteList(raw[:16])
+	}
+	if ck := 16 + int(n.Size); n.Size >= 0 && ck+4 <= len(raw) {
+		res["cks"] = byteList(raw[ck : ck+4]) // the four bytes behind the body
+	}
+	if full {
+		res["raw"] = byteList(raw)
+	}
+	f.recs = append(f.recs, rec{int64(off), n.Size, n.Id})
+	return res
+}
+
+func cpStr(v interface{}) string {
+	var sb strings.Builder
+	for _, c := range tr.Ints(v) {
+		sb.WriteRune(rune(c))
+	}
+	return sb.String()
+}
+
+var quoteEscaper = strings.NewReplacer("\\", "\\\\", `"`, "\\\"")
+
+// buildRequest renders the abstract upload request of a script line as an *http.Request, the way
+// operation.Upload (POST, one multipart part named "file") or a plain client (PUT, raw body) sends it.
+// It returns the request and the body bytes that are the blob's data.
+func buildRequest(e tr.Ev) (*http.Request, []byte, []byte, []byte) {
+	fid, _ := e["fid"].(map[string]interface{})
+	path := "/3," + cpStr(fid["key"]) + cpStr(fid["ck"])
+	if d := cpStr(fid["delta"]); d != "" {
+		path += "_" + d
+	}
+	if x := cpStr(fid["ext"]); x != "" {
+		path += "." + x
+	}
+	q := url.Values{}
+	if ts, _ := e["ts"].(map[string]interface{}); ts != nil && tr.B(ts, "has") {
+		q.Set("ts", strconv.FormatUint(be(toBytes(ts["v"])), 10))
+	}
+	if t, _ := e["ttl"].(map[string]interface{}); t != nil && tr.B(t, "has") {
+		q.Set("ttl", fmt.Sprintf("%d%c", tr.I(t, "c"), rune(tr.I(t, "u"))))
+	}
+	if tr.B(e, "cm") {
+		q.Set("cm", "true")
+	}
+	target := path
+	if len(q) > 0 {
+		target += "?" + q.Encode()
+	}
+	data := field(e["data"])
+	ce := tr.S(e, "ce")
+	if ce == "gzip" { // a declared gzip body is a real gzip stream; the blob's data are the compressed bytes
+		var zb bytes.Buffer
+		zw := gzip.NewWriter(&zb)
+		zw.Write(data)
+		zw.Close()
+		data = zb.Bytes()
+	}
+	name := field(e["name"])
+	ct := field(e["ct"])
+	var r *http.Request
+	if tr.S(e, "method") == "POST" {
+		var body bytes.Buffer
+		mw := multipart.NewWriter(&body)
+		h := make(textproto.MIMEHeader)
+		h.Set("Content-Disposition", fmt.Sprintf(`form-data; name="file"; filename="%s"`, quoteEscaper.Replace(string(name))))
+		if len(ct) > 0 {
+			h.Set("Content-Type", string(ct))
+		}
+		if ce != "" {
+			h.Set("Content-Encoding", ce)
+		}
+		pw, err := mw.CreatePart(h)
+		if err != nil {
+			tr.Fatal("multipart: %v", err)
+		}
+		pw.Write(data)
+		mw.Close()
+		r = httptest.NewRequest("POST", target, &body)
+		r.Header.Set("Content-Type", mw.FormDataContentType())
+	} else {
+		name = nil
+		r = httptest.NewRequest("PUT", target, bytes.NewReader(data))
+		if len(ct) > 0 {
+			r.Header.Set("Content-Type", string(ct))
+		}
+		if ce != "" {
+			r.Header.Set("Content-Encoding", ce)
+		}
+	}
+	for _, p := range tr.List(e["pairs"]) {
+		pm, _ := p.(map[string]interface{})
+		r.Header.Set(needle.PairNamePrefix+cpStr(pm["name"]), string(alnum(pm["v"])))
+	}
+	return r, data, name, ct
+}
+
+func cpsOf(s string) []int {
+	r := []int{}
+	for _, c := range s {
+		r = append(r, int(c))
+	}
+	return r
 }
 
 func (f *file) step(e tr.Ev) bool {
@@ -161,27 +341,128 @@ func (f *file) step(e tr.Ev) bool {
 		t := tr.Ints(e["ttl"])
 		n.Ttl = &needle.TTL{Count: byte(t[0]), Unit: byte(t[1])}
 		n.Checksum = needle.NewCRC(n.Data)
-		off, size, actual, err := n.Append(f.df, f.ver)
-		end, _, _ := f.df.GetStat()
-		full := end-int64(off) <= fullLimit
+		seeds := map[string]int{}
 		for _, k := range []string{"data", "name", "mime", "pairs"} {
-			e[k] = fieldEv(map[string][]byte{"data": data, "name": name, "mime": mime, "pairs": pairs}[k], seedOf(e[k]), full)
+			seeds[k] = seedOf(e[k])
 		}
-		e["full"] = full
-		raw := make([]byte, end-int64(off))
-		if _, rerr := f.df.ReadAt(raw, int64(off)); rerr != nil && err == nil {
-			tr.Fatal("read back: %v", rerr)
+		e["res"] = f.appendRec(n, e, map[string][]byte{"data": data, "name": name, "mime": mime, "pairs": pairs}, seeds)
+	case "req":
+		r, data, name, ct := buildRequest(e)
+		// echo the inputs as sent: data = the body bytes, name / ct with their bytes, pair values as tokens
+		e["data"] = fieldEv(data, seedOf(e["data"]), len(data) <= 64)
+		e["name"] = fieldEv(name, -1, true)
+		e["ct"] = fieldEv(ct, -1, true)
+		pin := []tr.Ev{}
+		for _, p := range tr.List(e["pairs"]) {
+			pm, _ := p.(map[string]interface{})
+			pin = append(pin, tr.Ev{"name": tr.Ints(pm["name"]), "v": outField(alnum(pm["v"]))})
 		}
-		res := tr.Ev{"err": err != nil, "off": int(off), "size": int(size), "nsize": int(n.Size), "actual": int(actual),
-			"end": int(end), "rawlen": len(raw), "hdr": []int{}, "raw": []int{}}
-		if len(raw) >= 16 {
-			res["hdr"] = byteList(raw[:16])
+		e["pairs"] = pin
+		// as VolumeServer.PostHandler does before it hands the request over
+		if perr := r.ParseForm(); perr != nil {
+			e["res"] = tr.Ev{"err": true, "msg": "ParseForm: " + perr.Error()}
+			break
 		}
-		if full {
-			res["raw"] = byteList(raw)
+		n, orig, md5, err := needle.CreateNeedleFromRequest(r, false, 64<<20, &bytes.Buffer{})
+		if err != nil || n == nil {
+			e["res"] = tr.Ev{"err": true, "msg": fmt.Sprint(err)}
+			break
+		}
+		n.AppendAtNs = be(toBytes(e["ats"]))
+		// the created needle, field by field (copies: Append and the byte buffer own the slices)
+		flds := map[string][]byte{"data": append([]byte{}, n.Data...), "name": append([]byte{}, n.Name...),
+			"mime": append([]byte{}, n.Mime...), "pairs": append([]byte{}, n.Pairs...)}
+		nd := needleEv(n, 0)
+		// the pairs as a JSON object, decoded with the standard library: [{name, v}] sorted by name
+		pmap, pmapok := []tr.Ev{}, true
+		if len(n.Pairs) > 0 {
+			m := map[string]string{}
+			if jerr := json.Unmarshal(n.Pairs, &m); jerr != nil {
+				pmapok = false
+			}
+			keys := []string{}
+			for k := range m {
+				keys = append(keys, k)
+			}
+			sort.Strings(keys)
+			for _, k := range keys {
+				pmap = append(pmap, tr.Ev{"name": cpsOf(k), "v": outField([]byte(m[k]))})
+			}
+		}
+		tmp := tr.Ev{}
+		put := f.appendRec(n, tmp, flds, map[string]int{"data": -2, "name": -2, "mime": -2, "pairs": -2})
+		full := tmp["full"].(bool)
+		for _, k := range []string{"data", "name", "mime", "pairs"} {
+			fe := outField(flds[k])
+			fe["b"] = []int{}
+			if full {
+				fe["b"] = byteList(flds[k])
+			}
+			nd[k] = fe
+		}
+		nd["full"] = full
+		e["res"] = tr.Ev{"err": false, "msg": "", "needle": nd, "pmap": pmap, "pmapok": pmapok, "orig": orig, "md5": md5, "put": put}
+	case "copy":
+		i := tr.I(e, "i")
+		if i < 1 || i > len(f.recs) {
+			return false
+		}
+		via := tr.S(e, "via")
+		if via == "volume" && !f.sb {
+			return false
+		}
+		src := f.recs[i-1]
+		before, _, _ := f.df.GetStat()
+		var err error
+		if via == "volume" {
+			// the data file opened as a real volume (a fresh index: the records of this file were not written through it)
+			os.WriteFile(filepath.Join(f.dir, fmt.Sprintf("%d.idx", f.vid)), nil, 0644)
+			var v *storage.Volume
+			v, err = storage.NewVolume(f.dir, f.dir, "", needle.VolumeId(f.vid), storage.NeedleMapInMemory, nil, nil, 0, 0)
+			if err == nil {
+				var blob []byte
+				if blob, err = v.ReadNeedleBlob(src.off, src.size); err == nil {
+					err = v.WriteNeedleBlob(src.id, blob, src.size)
+				}
+			}
+			if v != nil {
+				v.Close()
+			}
+			os.Remove(filepath.Join(f.dir, fmt.Sprintf("%d.idx", f.vid)))
+			f.df = backend.NewDiskFile(f.df.File) // the volume appended through its own descriptor: take the new file size
+		} else {
+			var blob []byte
+			if blob, err = needle.ReadNeedleBlob(f.df, src.off, src.size, f.ver); err == nil {
+				_, err = needle.WriteNeedleBlob(f.df, blob, src.size, be(toBytes(e["ts"])), f.ver)
+			}
+		}
+		end, _, _ := f.df.GetStat()
+		res := tr.Ev{"err": err != nil, "msg": "", "off": int(before), "end": int(end), "sraw": outField(nil), "draw": outField(nil),
+			"got": needleEv(new(needle.Needle), before), "goterr": true}
+		if err != nil {
+			res["msg"] = err.Error()
+		} else {
+			// both records as they are in the file, with the append timestamp of version 3 (8 bytes behind the
+			// checksum) blanked: the copy carries its own
+			rd := func(off, n int64) []byte {
+				b := make([]byte, n)
+				f.df.ReadAt(b, off)
+				if ts := 16 + int64(src.size) + 4; f.ver == needle.Version3 && src.size >= 0 && ts+8 <= n {
+					copy(b[ts:ts+8], make([]byte, 8))
+				}
+				return b
+			}
+			res["sraw"] = outField(rd(src.off, end-before))
+			res["draw"] = outField(rd(before, end-before))
+			n := new(needle.Needle)
+			gerr := n.ReadData(f.df, before, src.size, f.ver)
+			if gerr == nil {
+				res["got"] = needleEv(n, before)
+			}
+			res["goterr"] = gerr != nil
+			f.recs = append(f.recs, rec{before, src.size, src.id})
 		}
 		e["res"] = res
-		f.recs = append(f.recs, rec{int64(off), n.Size})
 	case "alter":
 		i := tr.I(e, "i")
 		res := tr.Ev{"at": 0, "done": false}
@@ -207,13 +488,35 @@ func (f *file) step(e tr.Ev) bool {
 		if i < 1 || i > len(f.recs) {
 			return false
 		}
+		via := tr.S(e, "via")
+		if via == "" {
+			via = "data"
+		}
+		e["via"] = via
+		off, size := f.recs[i-1].off, f.recs[i-1].size
 		n := new(needle.Needle)
-		err := n.ReadData(f.df, f.recs[i-1].off, f.recs[i-1].size, f.ver)
-		res := needleEv(n, f.recs[i-1].off)
+		var err error
+		switch via {
+		case "blob":
+			var blob []byte
+			if blob, err = needle.ReadNeedleBlob(f.df, off, size, f.ver); err == nil {
+				err = n.ReadBytes(blob, off, size, f.ver)
+			}
+		case "hdrbody":
+			var bodyLen int64
+			var hn *needle.Needle
+			if hn, _, bodyLen, err = needle.ReadNeedleHeader(f.df, f.ver, off); err == nil && hn != nil {
+				n = hn
+				_, err = n.ReadNeedleBody(f.df, f.ver, off+types.NeedleHeaderSize, bodyLen)
+			}
+		default:
+			err = n.ReadData(f.df, off, size, f.ver)
+		}
+		res := needleEv(n, off)
 		res["err"] = err != nil
 		res["msg"] = ""
 		if err != nil {
-			res = needleEv(new(needle.Needle), f.recs[i-1].off)
+			res = needleEv(new(needle.Needle), off)
 			res["err"] = true
 			res["msg"] = err.Error()
 		}
@@ -222,9 +525,22 @@ func (f *file) step(e tr.Ev) bool {
 		if tripped >= 3 {
 			return false
 		}
+		via := tr.S(e, "via")
+		if via == "" {
+			via = "from"
+		}
+		if via == "file" && !f.sb {
+			return false
+		}
+		e["via"] = via
 		end, _, _ := f.df.GetStat()
 		s := &scanner{body: tr.B(e, "body"), out: []tr.Ev{}, limit: len(f.recs) + 2, end: end}
-		err := storage.ScanVolumeFileFrom(f.ver, f.df, f.strt, s)
+		var err error
+		if via == "file" {
+			err = storage.ScanVolumeFile(f.dir, "", needle.VolumeId(f.vid), storage.NeedleMapInMemory, s)
+		} else {
+			err = storage.ScanVolumeFileFrom(f.ver, f.df, f.strt, s)
+		}
 		if s.trip {
 			tripped++
 		}
@@ -245,13 +561,23 @@ func main() {
 	}
 	defer os.RemoveAll(dir)
 	for xi, ex := range tr.ReadScript(o.Script) {
-		osf, err := os.OpenFile(filepath.Join(dir, fmt.Sprintf("v%d.dat", xi%4)), os.O_RDWR|os.O_CREATE|os.O_TRUNC, 0644)
+		vid := xi%4 + 1
+		osf, err := os.OpenFile(filepath.Join(dir, fmt.Sprintf("%d.dat", vid)), os.O_RDWR|os.O_CREATE|os.O_TRUNC, 0644)
 		if err != nil {
 			tr.Fatal("data file: %v", err)
 		}
+		for _, ext := range []string{".idx", ".vif", ".cpd", ".cpx", ".note"} { // nothing of an earlier file of this name survives
+			os.Remove(filepath.Join(dir, fmt.Sprintf("%d%s", vid, ext)))
+		}
 		start := tr.I(ex[0], "start")
-		osf.Write(make([]byte, start))
-		f := &file{df: backend.NewDiskFile(osf), ver: needle.Version(tr.I(ex[0], "v")), strt: int64(start)}
+		ver := needle.Version(tr.I(ex[0], "v"))
+		lead := make([]byte, start)
+		if start == super_block.SuperBlockSize {
+			// a real super block of this version, so that the file can also be opened by name as a volume
+			lead = (&super_block.SuperBlock{Version: ver, ReplicaPlacement: &super_block.ReplicaPlacement{}, Ttl: needle.EMPTY_TTL}).Bytes()
+		}
+		osf.Write(lead)
+		f := &file{dir: dir, vid: vid, df: backend.NewDiskFile(osf), ver: ver, strt: int64(start), sb: start == super_block.SuperBlockSize}
 		w.Emit(ex[0])
 		for _, e := range ex[1:] {
 			if tr.S(e, "ev") == "panic" {
